@@ -3,7 +3,7 @@
 Formatter half (this file, harness/stats_driver.py, spec/Stats.tla):
 M    : MC_Stats - the prefix-selection design of readable_count in exact
        arithmetic satisfies ReadableOk on all bands with Threshold="byLength";
-       with Threshold="gt10" (the code as written) TLC must find the band with
+       with Threshold="gt10" (the code before fix 7cbc19a) TLC must find the band with
        no significant digit (deviation switch, must FAIL).
 S->C : the integer bands (every count 0..20000; +-300 around m*1024^k; powers
        of two up to 2^70 +-2; the places where the shown length changes; a
